@@ -106,23 +106,49 @@ func registerHost(in *Interp) {
 		}
 		return Tuple{in.B.Const(in.WordBits, uint64(int64(n))), Iface{}}
 	}
-	conc2 := func(f func(a, b string) bool) HostFn {
+	conc2 := func(kind string, f func(a, b string) bool) HostFn {
 		return func(in *Interp, a []Value, _ ssa.CallInstruction) Value {
 			x, ok1 := a[0].(string)
 			y, ok2 := a[1].(string)
 			if !ok1 || !ok2 {
-				if in.StrPred != nil {
-					return in.StrPred(in, a)
+				if l, isLine := a[0].(*SymStr); isLine && l.Line && ok2 {
+					switch kind {
+					case "contains":
+						return in.lineContains(l, y)
+					case "prefix":
+						return in.lineHasPrefix(l, y)
+					case "suffix":
+						return in.lineHasSuffix(l, y)
+					}
 				}
 				in.unmodelled("string predicate on a symbolic string")
 			}
 			return in.B.Bool(f(x, y))
 		}
 	}
-	H["strings.Contains"] = conc2(strings.Contains)
-	H["strings.HasPrefix"] = conc2(strings.HasPrefix)
-	H["strings.HasSuffix"] = conc2(strings.HasSuffix)
-	H["strings.EqualFold"] = conc2(strings.EqualFold)
+	H["strings.Contains"] = conc2("contains", strings.Contains)
+	H["strings.HasPrefix"] = conc2("prefix", strings.HasPrefix)
+	H["strings.HasSuffix"] = conc2("suffix", strings.HasSuffix)
+	H["strings.EqualFold"] = conc2("fold", strings.EqualFold)
+	H["strings.TrimPrefix"] = func(in *Interp, a []Value, _ ssa.CallInstruction) Value {
+		c, ok := a[1].(string)
+		if !ok {
+			in.unmodelled("strings.TrimPrefix with a symbolic prefix")
+		}
+		switch x := a[0].(type) {
+		case string:
+			return strings.TrimPrefix(x, c)
+		case *SymStr:
+			if x.Line {
+				if in.branch(in.lineHasPrefix(x, c)) {
+					return &SymStr{Str: x.Str, From: x.From + len(c), Line: true}
+				}
+				return x
+			}
+		}
+		in.unmodelled("strings.TrimPrefix on a symbolic string")
+		return nil
+	}
 	H["strings.TrimSpace"] = func(in *Interp, a []Value, _ ssa.CallInstruction) Value {
 		if s, ok := a[0].(string); ok {
 			return strings.TrimSpace(s)
@@ -132,6 +158,9 @@ func registerHost(in *Interp) {
 	H["strings.Fields"] = func(in *Interp, a []Value, _ ssa.CallInstruction) Value {
 		s, ok := a[0].(string)
 		if !ok {
+			if l, isLine := a[0].(*SymStr); isLine && l.Line {
+				return in.lineFields(l)
+			}
 			in.unmodelled("strings.Fields on a symbolic string")
 		}
 		return in.mkStringSlice(strings.Fields(s))
@@ -166,6 +195,10 @@ func registerHost(in *Interp) {
 		return nil
 	}
 	H["runtime.KeepAlive"] = nop
+	H["regexp.MustCompile"] = func(in *Interp, a []Value, site ssa.CallInstruction) Value {
+		pt := site.Value().Type().(*types.Pointer)
+		return Ptr{in.newCell(pt.Elem())}
+	}
 	H["(syscall.Errno).Error"] = opaqueStr("errno")
 	H["(*sync.Mutex).Lock"] = nop
 	H["(*sync.Mutex).Unlock"] = nop
